@@ -572,11 +572,7 @@ fn gen_type(rng: &mut Rng, depth: usize, dom: Dom) -> DataType {
         5 | 6 => {
             let kt = rng.pick(&[DataType::Int8, DataType::Int16, DataType::Int32, DataType::Int64, DataType::UInt8, DataType::UInt16, DataType::UInt32, DataType::UInt64]).clone();
             let mut vt = gen_type(rng, depth - 1, below);
-            // list views as dictionary values: `arrow_data::equal::list_view_equal` (used by the
-            // tracker's dictionary comparison) is a known-defect domain of its own (probe dict-listview-resized)
-            while matches!(vt, DataType::Dictionary(_, _) | DataType::Null | DataType::RunEndEncoded(_, _) | DataType::Union(_, _))
-                || has_type(&vt, &|x| matches!(x, DataType::ListView(_) | DataType::LargeListView(_)))
-            {
+            while matches!(vt, DataType::Dictionary(_, _) | DataType::Null | DataType::RunEndEncoded(_, _) | DataType::Union(_, _)) {
                 vt = rng.pick(&leaves).clone();
             }
             DataType::Dictionary(Box::new(kt), Box::new(vt))
@@ -879,6 +875,8 @@ struct RtCase {
     proj: Option<Vec<usize>>,
     seed: u64,
     dom: String,
+    /// forced row count of every batch (dense size-class block), or None
+    rows: Option<usize>,
 }
 
 fn has_type(dt: &DataType, pred: &dyn Fn(&DataType) -> bool) -> bool {
@@ -933,12 +931,15 @@ fn build_batches(c: &RtCase) -> (SchemaRef, Vec<RecordBatch>, String) {
         }
     }
     let schema = Arc::new(Schema::new_with_metadata(fields, gen_meta(&mut rng)));
-    let nb = rng.usize(5);
+    let nb = if c.rows.is_some() { 2 } else { rng.usize(5) };
     let mut ctx = Ctx { pool: HashMap::new(), evo: c.evo, batch: 0 };
     let mut batches = vec![];
     for bi in 0..nb {
         ctx.batch = bi;
-        let rows = if rng.chance(1, 4) { 0 } else { 1 + rng.usize(40) };
+        let rows = match c.rows {
+            Some(r) => r,
+            None => if rng.chance(1, 4) { 0 } else { 1 + rng.usize(40) },
+        };
         if rows == 0 {
             tags.push_str("empty-batch ");
         }
@@ -997,6 +998,7 @@ fn run_rt(t: &[&str]) -> (String, Option<String>, String) {
         proj: if t[10] == "-" { None } else { Some(parse_list::<usize>(t[10])) },
         seed: t[11].parse().unwrap(),
         dom: t[12].into(),
+        rows: t.get(13).map(|x| x.parse().unwrap()),
     };
     let (schema, batches, mut tags) = build_batches(&c);
     if std::env::var("VERIF_DEBUG").is_ok() {
@@ -1031,6 +1033,93 @@ fn run_rt(t: &[&str]) -> (String, Option<String>, String) {
                 w.finish().map_err(|e| (usize::MAX, e))?;
                 w.into_inner().map_err(|e| (usize::MAX, e))
             }
+            "bfile" => {
+                // `try_new_buffered` (BufWriter, default options)
+                let mut out = Vec::new();
+                {
+                    let mut w = FileWriter::try_new_buffered(&mut out, &schema).map_err(|e| (usize::MAX, e))?;
+                    w.write_metadata("custom", "meta");
+                    for (i, b) in batches.iter().enumerate() {
+                        w.write(b).map_err(|e| (i, e))?;
+                        if i == 0 {
+                            w.flush().map_err(|e| (usize::MAX, e))?;
+                        }
+                    }
+                    let _ = w.schema();
+                    w.finish().map_err(|e| (usize::MAX, e))?;
+                    // a finished writer refuses further use
+                    if w.finish().is_ok() || batches.first().map(|b| w.write(b).is_ok()).unwrap_or(false) {
+                        return Err((usize::MAX, ArrowError::IpcError("finished FileWriter accepted write/finish".into())));
+                    }
+                }
+                Ok(out)
+            }
+            "bstream" => {
+                let mut out = Vec::new();
+                {
+                    let mut w = StreamWriter::try_new_buffered(&mut out, &schema).map_err(|e| (usize::MAX, e))?;
+                    for (i, b) in batches.iter().enumerate() {
+                        w.write(b).map_err(|e| (i, e))?;
+                        if i == 0 {
+                            w.flush().map_err(|e| (usize::MAX, e))?;
+                        }
+                    }
+                    w.finish().map_err(|e| (usize::MAX, e))?;
+                    if w.finish().is_ok() || batches.first().map(|b| w.write(b).is_ok()).unwrap_or(false) {
+                        return Err((usize::MAX, ArrowError::IpcError("finished StreamWriter accepted write/finish".into())));
+                    }
+                }
+                Ok(out)
+            }
+            "tfile" => {
+                // through the `RecordBatchWriter` trait (write + close)
+                let mut out = Vec::new();
+                {
+                    let mut w = FileWriter::try_new_with_options(&mut out, &schema, o.clone()).map_err(|e| (usize::MAX, e))?;
+                    w.write_metadata("custom", "meta");
+                    for (i, b) in batches.iter().enumerate() {
+                        RecordBatchWriter::write(&mut w, b).map_err(|e| (i, e))?;
+                    }
+                    RecordBatchWriter::close(w).map_err(|e| (usize::MAX, e))?;
+                }
+                Ok(out)
+            }
+            "tstream" => {
+                let mut out = Vec::new();
+                {
+                    let mut w = StreamWriter::try_new_with_options(&mut out, &schema, o.clone()).map_err(|e| (usize::MAX, e))?;
+                    for (i, b) in batches.iter().enumerate() {
+                        RecordBatchWriter::write(&mut w, b).map_err(|e| (i, e))?;
+                    }
+                    RecordBatchWriter::close(w).map_err(|e| (usize::MAX, e))?;
+                }
+                Ok(out)
+            }
+            "gen" => {
+                // the low-level path Flight uses: IpcDataGenerator::encode (contiguous body) + write_message
+                let data_gen = IpcDataGenerator::default();
+                let mut tracker = DictionaryTracker::new(false);
+                let mut wctx = arrow_ipc::writer::IpcWriteContext::default();
+                let mut out = Vec::new();
+                let enc = data_gen.schema_to_bytes_with_dictionary_tracker(&schema, &mut tracker, &o);
+                write_message(&mut out, enc, &o).map_err(|e| (usize::MAX, e))?;
+                for (i, b) in batches.iter().enumerate() {
+                    wctx.set_reserve_scratch(i % 2 == 0);
+                    let (dicts, batch) = data_gen.encode(b, &mut tracker, &o, &mut wctx).map_err(|e| (i, e))?;
+                    for d in dicts {
+                        write_message(&mut out, d, &o).map_err(|e| (i, e))?;
+                    }
+                    write_message(&mut out, batch, &o).map_err(|e| (i, e))?;
+                }
+                if c.seed % 2 == 0 {
+                    // explicit end-of-stream marker (otherwise: plain EOF)
+                    if !c.legacy {
+                        out.extend_from_slice(&[0xff; 4]);
+                    }
+                    out.extend_from_slice(&[0; 4]);
+                }
+                Ok(out)
+            }
             _ => {
                 let mut w = StreamEncoder::try_new_with_options(&schema, o.clone()).map_err(|e| (usize::MAX, e))?;
                 let mut out = vec![];
@@ -1051,7 +1140,7 @@ fn run_rt(t: &[&str]) -> (String, Option<String>, String) {
         Err((i, e)) => {
             // the only acceptable write error: the file writer rejecting a changed dictionary
             let replacement = matches!(&e, ArrowError::InvalidArgumentError(m) if m.contains("Dictionary replacement detected"));
-            let allowed = replacement && c.writer == "file" && i != usize::MAX && i > 0 && (c.evo >= 3 || (c.evo == 2 && !c.delta));
+            let allowed = replacement && c.writer.ends_with("file") && i != usize::MAX && i > 0 && (c.evo >= 3 || (c.evo == 2 && !c.delta));
             tags.push_str("write-err ");
             if allowed {
                 tags.push_str("exp:file-dict-replacement ");
@@ -1069,18 +1158,107 @@ fn run_rt(t: &[&str]) -> (String, Option<String>, String) {
             Ok((s, r.collect::<Result<Vec<_>, _>>()?))
         }
         "stream" => {
-            let r = StreamReader::try_new(Cursor::new(bytes.clone()), proj.clone())?;
+            let mut r = StreamReader::try_new(Cursor::new(bytes.clone()), proj.clone())?;
+            let s = r.schema();
+            let mut out = vec![];
+            for b in r.by_ref() {
+                out.push(b?);
+            }
+            if !r.is_finished() || r.next().is_some() {
+                return Err(ArrowError::IpcError("exhausted StreamReader is not finished".into()));
+            }
+            Ok((s, out))
+        }
+        "bfile" => {
+            let r = FileReader::try_new_buffered(Cursor::new(bytes.clone()), proj.clone())?;
             let s = r.schema();
             Ok((s, r.collect::<Result<Vec<_>, _>>()?))
+        }
+        "bstream" => {
+            let r = StreamReader::try_new_buffered(Cursor::new(bytes.clone()), proj.clone())?;
+            let s = r.schema();
+            Ok((s, r.collect::<Result<Vec<_>, _>>()?))
+        }
+        "svfile" => {
+            // skip_validation must not change what a well-formed file decodes to
+            let r = unsafe { FileReader::try_new(Cursor::new(bytes.clone()), proj.clone())?.with_skip_validation(true) };
+            let s = r.schema();
+            Ok((s, r.collect::<Result<Vec<_>, _>>()?))
+        }
+        "svstream" => {
+            let r = unsafe { StreamReader::try_new(Cursor::new(bytes.clone()), proj.clone())?.with_skip_validation(true) };
+            let s = r.schema();
+            Ok((s, r.collect::<Result<Vec<_>, _>>()?))
+        }
+        "fbuild" => {
+            // FileReaderBuilder + random access with set_index (last batch first, then all in order)
+            let mut b = arrow_ipc::reader::FileReaderBuilder::new().with_max_footer_fb_tables(1_000_000).with_max_footer_fb_depth(64);
+            if let Some(p) = proj.clone() {
+                b = b.with_projection(p);
+            }
+            let mut r = b.build(Cursor::new(bytes.clone()))?;
+            let s = r.schema();
+            let n = r.num_batches();
+            let mut last = None;
+            if n > 0 {
+                r.set_index(n - 1)?;
+                last = Some(r.next().unwrap()?);
+                if r.next().is_some() {
+                    return Err(ArrowError::IpcError("batch after the last index".into()));
+                }
+            }
+            if r.set_index(n).is_ok() {
+                return Err(ArrowError::IpcError("set_index(num_batches) accepted".into()));
+            }
+            let mut out = vec![];
+            if n > 0 {
+                r.set_index(0)?;
+                for b in r.by_ref() {
+                    out.push(b?);
+                }
+                if out.last().map(|b| b.num_rows()) != last.as_ref().map(|b| b.num_rows()) {
+                    return Err(ArrowError::IpcError("set_index(last) read a different batch".into()));
+                }
+            }
+            Ok((s, out))
+        }
+        "fdec" => {
+            // FileDecoder driven by hand from the footer (the zero-copy / mmap entry point)
+            let buffer = Buffer::from(bytes.as_slice());
+            let trailer = buffer.len() - 10;
+            let flen = arrow_ipc::reader::read_footer_length(buffer[trailer..].try_into().unwrap())?;
+            let footer = arrow_ipc::root_as_footer(&buffer[trailer - flen..trailer]).map_err(|e| ArrowError::ParseError(format!("{e:?}")))?;
+            let fschema = Arc::new(arrow_ipc::convert::try_fb_to_schema(footer.schema().unwrap())?);
+            let mut d = arrow_ipc::reader::FileDecoder::new(fschema.clone(), footer.version()).with_require_alignment(c.seed % 3 == 0);
+            if let Some(p) = proj.clone() {
+                d = d.with_projection(p);
+            }
+            for block in footer.dictionaries().iter().flatten() {
+                let len = block.bodyLength() as usize + block.metaDataLength() as usize;
+                d.read_dictionary(block, &buffer.slice_with_length(block.offset() as _, len))?;
+            }
+            let mut out = vec![];
+            for block in footer.recordBatches().iter().flatten() {
+                let len = block.bodyLength() as usize + block.metaDataLength() as usize;
+                if let Some(b) = d.read_record_batch(block, &buffer.slice_with_length(block.offset() as _, len))? {
+                    out.push(b);
+                }
+            }
+            let s = match &proj {
+                Some(p) => Arc::new(fschema.project(p)?),
+                None => fschema,
+            };
+            Ok((s, out))
         }
         _ => {
             // StreamDecoder fed in chunks of varying size
             let mut rng = Rng::new(c.seed ^ 0xDEC0DE);
-            let mut d = StreamDecoder::new();
             let mut out = vec![];
             let mut pos = 0;
             let dense = schema.fields().iter().any(|f| has_type(f.data_type(), &|t| matches!(t, DataType::Union(_, UnionMode::Dense))));
-            let whole = dense && c.dom != "decoder-unaligned";
+            let whole = (dense || c.reader == "decoder-req") && c.dom != "decoder-unaligned";
+            // `with_require_alignment(true)` is satisfiable when the whole stream sits in one aligned buffer
+            let mut d = StreamDecoder::new().with_require_alignment(c.reader == "decoder-req" && c.align >= 8);
             while pos < bytes.len() {
                 let n = if whole { bytes.len() } else { (1 + rng.usize(200)).min(bytes.len() - pos) };
                 // chunks start at an odd address unless `whole` (64-byte aligned copy)
@@ -1108,7 +1286,7 @@ fn run_rt(t: &[&str]) -> (String, Option<String>, String) {
     };
     // expected: projection = project after full read
     let (eschema, ebatches): (SchemaRef, Vec<RecordBatch>) = match &proj {
-        Some(p) if c.reader != "decoder" => (Arc::new(schema.project(p).unwrap()), batches.iter().map(|b| b.project(p).unwrap()).collect()),
+        Some(p) if !c.reader.starts_with("decoder") => (Arc::new(schema.project(p).unwrap()), batches.iter().map(|b| b.project(p).unwrap()).collect()),
         _ => (schema.clone(), batches.clone()),
     };
     if *rschema != *eschema {
@@ -1117,7 +1295,7 @@ fn run_rt(t: &[&str]) -> (String, Option<String>, String) {
     if let Some(why) = compare_batches(&ebatches, &rbatches) {
         return ("MISMATCH".into(), Some(why), tags);
     }
-    if c.writer == "file" {
+    if c.writer.ends_with("file") {
         let r = FileReader::try_new(Cursor::new(bytes.clone()), None).unwrap();
         if r.custom_metadata().get("custom").map(|s| s.as_str()) != Some("meta") {
             return ("MISMATCH".into(), Some("file custom metadata lost".into()), tags);
